@@ -14,7 +14,7 @@ import (
 func init() { Registry["C11"] = checkC11 }
 
 func checkC11(p *core.Prog, r *core.Report) {
-	r.Explanation = "Decides structural necessary conditions of ack-required locks: (R1) DoAckLock(lock, true) is called only from the two ack counters, each call on a path that saw a positive result, a still-pending hold, the decrement of its ack count and the count reaching zero, all tested under the ack table's mutex; any other call passes constant false; (R2) on the ack-pending arms of Lock / wakeUpWaitLock (require-ack flag, not yet persisted, persistable) the request is never answered SUCCED; (R3) every mutation of a hold found by LockId in Lock/UnLock follows the test ackCount == 0xff (not pending); (R4) DoAckLock's failure arm undoes the value (when the request carried one), logs the release of a persisted hold, removes the hold, answers RESULT_ERROR after the mutex and wakes waiters, in that order; in every function, the pending test (ackCount) of a hold is never evaluated after RemoveLock reset it; (R5) every failure source reaches the failure arm: AofFile.Flush acknowledges success only after both the record and the value write and negatively on every error return; AofChannel.HandleLock, the ack table's push/unlock/demotion/flush paths call DoAckLock(false); (R6) UpdateDBAckCount computes len(followers)+1 (all) or (len+1)/2+1 (majority). (R7) every publication of a new ack table is followed, before the manager mutex is released, by the recount that gives it the real acknowledgement requirement. (R8) on the ack-pending path of wakeUpWaitLock the queued request's timeout stays armed (it is the only bound on the wait for acknowledgements). NOT decided: run-time ordering between flush, follower acks and reply; lost-ack behaviour."
+	r.Explanation = "Decides structural necessary conditions of ack-required locks: (R1) DoAckLock(lock, true) is called only from the two ack counters, each call on a path that saw a positive result, a still-pending hold, the decrement of its ack count and the count reaching zero, all tested under the ack table's mutex; any other call passes constant false; (R2) on the ack-pending arms of Lock / wakeUpWaitLock (require-ack flag, not yet persisted, persistable) the request is never answered SUCCED; (R3) every mutation of a hold found by LockId in Lock/UnLock follows the test ackCount == 0xff (not pending); (R4) DoAckLock's failure arm undoes the value (when the request carried one), logs the release of a persisted hold, removes the hold, answers RESULT_ERROR after the mutex and wakes waiters, in that order; in every function, the pending test (ackCount) of a hold is never evaluated after RemoveLock reset it; (R5) every failure source reaches the failure arm: AofFile.Flush acknowledges success only after both the record and the value write and negatively on every error return; AofChannel.HandleLock, the ack table's push/unlock/demotion/flush paths call DoAckLock(false); (R6) UpdateDBAckCount computes len(followers)+1 (all) or (len+1)/2+1 (majority). (R7) every publication of a new ack table is followed, before the manager mutex is released, by the recount that gives it the real acknowledgement requirement. (R8) on the ack-pending path of wakeUpWaitLock the queued request's timeout stays armed (it is the only bound on the wait for acknowledgements). (R9) ProcessLeaderPushLock tracks or fails a pending ack request on every return; (R10) the rollback (ProcessRecoverLockData) clears the logged mark of every existing value object it puts back as the current value, so the compensating UNLOCK record carries it. NOT decided: run-time ordering between flush, follower acks and reply; lost-ack behaviour."
 	r.Assumptions = []string{"Go type checker and go/ssa are correct for /repo", "the ack table mutex (ackGlocks) serialises the two counters (checked for ackCount stores in C01-R3)"}
 	c11R1(p, r)
 	c11R2(p, r)
@@ -25,6 +25,7 @@ func checkC11(p *core.Prog, r *core.Report) {
 	c11R7(p, r)
 	c11R8(p, r)
 	c11R9(p, r)
+	c11R10(p, r)
 }
 
 func c11R1(p *core.Prog, r *core.Report) {
@@ -747,5 +748,93 @@ func c11R9(p *core.Prog, r *core.Report) {
 	ex.Run(fn, nil)
 	if ex.Imprecise != "" {
 		r.Fail("C11/R9: %s", ex.Imprecise)
+	}
+}
+
+// c11R10: the rollback of a failed ack request restores the value the key had
+// before (ProcessRecoverLockData) in the leader's memory; the log and the
+// followers learn of it only through the compensating UNLOCK record, which
+// carries the current value only while that value is marked "not yet logged"
+// (LockManagerData.isAof == false, see AofLockData). So every path that puts a
+// previously logged value object back as the current value must clear the
+// mark; otherwise the log and every follower keep the value of the request
+// that was refused.
+func c11R10(p *core.Prog, r *core.Report) {
+	const rule = "C11/R10"
+	r.Rule(rule, "ProcessRecoverLockData: whenever an existing value object is put back as the key's current value, its logged mark (isAof) is cleared on that path (fresh objects are built unmarked)", 3)
+	fn := mustFunc(p, r, "server.(*LockManager).ProcessRecoverLockData")
+	if fn == nil {
+		return
+	}
+	self := fn.Params[0].Name()
+	cur := fk("server.LockManager", "currentData")
+	mark := fk("server.LockManagerData", "isAof")
+	n := 0
+	reported := map[string]bool{}
+	ex := core.NewExplorer(p, core.Hooks{
+		Instr: func(x *core.X) {
+			st, ok := x.Ins.(*ssa.Store)
+			if !ok {
+				return
+			}
+			k, ok := storeKey(st.Addr)
+			if !ok {
+				return
+			}
+			switch k {
+			case cur:
+				fa, ok := st.Addr.(*ssa.FieldAddr)
+				if !ok || core.Plain(x.Canon(fa.X).S) != self {
+					return
+				}
+				v := core.Plain(x.Canon(st.Val).S)
+				fresh := false
+				if c, ok := st.Val.(*ssa.Call); ok {
+					if callee := c.Common().StaticCallee(); callee != nil && strings.HasPrefix(callee.Name(), "NewLockManagerData") {
+						if args := c.Common().Args; len(args) > 0 {
+							if k, ok := args[len(args)-1].(*ssa.Const); ok && k.Value != nil && x.Canon(k).S == "false" {
+								fresh = true
+							}
+						}
+					}
+				}
+				if v == "nil" || fresh {
+					x.Set("restored", "")
+				} else {
+					x.Set("restored", siteKey(p, x.Ins)+"\x00"+x.Pos())
+				}
+			case mark:
+				fa, ok := st.Addr.(*ssa.FieldAddr)
+				if !ok {
+					return
+				}
+				if core.Plain(x.Canon(fa.X).S) == self+".currentData" && x.Canon(st.Val).S == "false" {
+					if rs := x.Get("restored"); rs != "" {
+						key := strings.SplitN(rs, "\x00", 2)[0]
+						if !reported[key] {
+							reported[key] = true
+							n++
+							r.Hold(rule, key, strings.SplitN(rs, "\x00", 2)[1], "restored value marked not-yet-logged")
+						}
+					}
+					x.Set("restored", "")
+				}
+			}
+		},
+		Exit: func(x *core.X, rets []core.Expr) {
+			if rs := x.Get("restored"); rs != "" {
+				parts := strings.SplitN(rs, "\x00", 2)
+				n++
+				r.Violate(rule, parts[0], parts[1], "the rollback puts a previously logged value object back as the key's current value and returns with its logged mark still set: the compensating UNLOCK record carries no value, so the leader's log and every follower keep the value written by the request that was refused", x.St.Trace)
+			}
+		},
+	})
+	ex.NoHist = true
+	ex.Run(fn, nil)
+	if ex.Imprecise != "" {
+		r.Fail("C11/R10: %s", ex.Imprecise)
+	}
+	if n == 0 {
+		r.Fail("C11/R10: ProcessRecoverLockData restores no existing value object")
 	}
 }
